@@ -107,6 +107,24 @@ def ev(n, env):
         return _wrap(r, n.get("t"))
     if k == "cond":
         return ev(n["a"], env) if ev(n["c"], env) else ev(n["b"], env)
+    if k == "call" and env.get("__fb__") is not None and n.get("op") is None:
+        # a side-effect-free in-repo helper (predicate on its arguments): evaluate its body
+        g = env["__fb__"].resolve_call(n)
+        if g is None or g.body is None or "obj" in n and not (n.get("callee") or {}).get("static"):
+            raise Unsupported("call %s" % (n.get("callee") or {}).get("name"))
+        depth = env.get("__depth__", 0)
+        if depth > 4:
+            raise Unsupported("call depth")
+        sub = {"__fb__": env["__fb__"], "__depth__": depth + 1}
+        for prm, a in zip(g.params, n.get("args", [])):
+            sub[prm["decl"]] = _wrap(ev(a, env), prm.get("t"))
+        try:
+            _exec(g.body, sub)
+        except _Return as r:
+            if r.v is None:
+                raise Unsupported("void helper")
+            return r.v
+        raise Unsupported("helper %s returns nothing" % g.name)
     if k == "initlist":
         return [ev(x, env) for x in n.get("inits", [])]
     if k == "subscript":
@@ -344,3 +362,50 @@ def trace(fn, bind, interesting, env=None):
     except _Return:
         pass
     return out
+
+
+def path_consistent(p, selector, value, fb=None):
+    """False when some branch outcome on path p contradicts `selector expression == value`
+    (selector(node) -> bool marks the selector's occurrences; locals are resolved on the path;
+    helper predicates are evaluated).  Outcomes that do not depend on the selector alone are
+    ignored, so the answer over-approximates feasibility."""
+    env = {"__fb__": fb}
+
+    def bind(n):
+        if selector(n):
+            return value
+        if n.get("k") == "ref" and n.get("dk") == "local":
+            e = p.value_of(n)
+            if e is not None and e.get("id") != n.get("id"):
+                return ev(e, env)
+        return None
+    env["__bind__"] = bind
+
+    def val(e):
+        try:
+            return ev(e, env)
+        except (Unsupported, RecursionError):
+            return None
+    for a in p.atoms:
+        if a[0] == "switch":
+            if a[4] is None:
+                continue
+            v = val(a[4])
+            if v is None:
+                continue
+            if (a[2] == "default" and v in a[3]) or (a[2] != "default" and v != a[2]):
+                return False
+        elif a[0] == "cmp":
+            l, r = val(a[4]), val(a[5])
+            if l is None or r is None:
+                continue
+            ok = {"==": l == r, "!=": l != r, "<": l < r, "<=": l <= r, ">": l > r, ">=": l >= r}[a[2]]
+            if not ok:
+                return False
+        elif a[0] == "truth":
+            v = val(a[3])
+            if v is None:
+                continue
+            if bool(v) != a[2]:
+                return False
+    return True
